@@ -17,7 +17,7 @@ from sim import world as Wd
 ID = 'C05'
 LEVEL = 'fault_enumeration'
 ENGINE = 'crash'
-BUDGET = {'quick': 700, 'thorough': 20000}
+BUDGET = {'quick': 450, 'thorough': 20000}
 WALL = {'quick': 50, 'thorough': 1800}
 RULE = ('scenarios: trash-put of 1-3 entries (every entry kind incl. deep trees and symlinks), first use of the trash dir or name collisions, '
         'home / .Trash/$uid / .Trash-$uid, same-volume (one rename) and cross-volume with the home fallback enabled twice (every copy and '
